@@ -435,6 +435,31 @@ def check_indexer(ctx, M, rule):
                         off_ok = any(o[0] == "field" and o[1] == ("param", 1) for o in ops)
                         end_ok = args[1][0] == "field" and args[1][1] == ("param", 1)
                         formula = pos_ok and off_ok and end_ok and s[2] != s[3]
+    if not (ok and formula):
+        # direct form: `let pos = self.iter.next()?; Some((pos + self.offset).wrapping_rem(self.iter.end))`
+        nbi = M.info(nb)
+        nexts = [s for s in nbi.sites if s.callee.name == "next" and s.arg(0) == sfield("iter")]
+        direct = False
+        none_ok = False
+        if len(nexts) == 1:
+            for ps in pss:
+                r = ps.ret
+                if r is None:
+                    continue
+                if r[0] == "agg" and r[1] == ("Option", "Some") and r[2]:
+                    v = r[2][0]
+                    if (v[0] == "call" and v[1][1] in ("wrapping_rem", "rem") and len(v[2]) == 2) or (v[0] == "binop" and v[1] == "Rem"):
+                        a0, a1 = (v[2][0], v[2][1]) if v[0] == "call" else (v[2], v[3])
+                        s_ = a0[1] if a0[0] == "field" and a0[2] == 0 else a0
+                        if s_[0] == "binop" and s_[1].startswith("Add") and s_[2] != s_[3]:
+                            ops = (s_[2], s_[3])
+                            pos_ok = any(any(z[0] == "call" and z[3] == nexts[0].block for z in subterms(o)) for o in ops)
+                            off_ok = sfield("offset") in ops
+                            end_ok = a1 == ("field", sfield("iter"), "end")
+                            direct = direct or (pos_ok and off_ok and end_ok)
+                elif (r[0] == "agg" and r[1] == ("Option", "None")) or (r[0] == "call" and r[1][1] == "from_residual"):
+                    none_ok = True
+        ok, formula = (direct and none_ok), (direct and none_ok)
     ctx.check(ok and formula, rule, nb.def_, "IndexIter::next yields (pos + offset) rem end for pos in 0..end", site=nb.span,
               sample=[ps.describe() for ps in pss])
 
